@@ -201,6 +201,64 @@ func c11Scenarios(tier string) []*world.Scenario {
 			}
 		}
 	}
+	// a request timeout is configured: one fragment of a split request is answered with an error (the request fails at
+	// once, its object is recycled), the sibling fragment is never answered; the NEXT request reuses the object and is in
+	// flight when the sibling's deadline passes; its own reply is a backend error that must arrive verbatim
+	for _, kind := range []string{"mget", "del", "mset"} {
+		for _, ei := range []int{1, 2} {
+			ka, kb, kc := keysA[0], keysB[0], keysC[0]
+			var r Req
+			switch kind {
+			case "mget":
+				r = MGetReq(ka, kb)
+			case "del":
+				r = DelReq(ka, kb)
+			default:
+				r = MSetReq(ka, "v", kb, "w")
+			}
+			e1, e2 := c11Errors[0], c11Errors[ei]
+			next := GetReq(kc)
+			next.Expect = []byte(e2)
+			last := GetReq(keysC[3])
+			cs := ClientOf([]Req{r, next, last}, false)
+			cs.Chunks[1].WaitReplies, cs.Chunks[1].WaitTicks = 1, 1
+			cs.Chunks[2].WaitReplies, cs.Chunks[2].WaitTicks = 2, 3
+			wake := ClientOf([]Req{PingReq()}, true)
+			wake.Chunks[0].WaitTicks = 2
+			sc := &world.Scenario{Nodes: T3m(), Bound: 2, Horizon: 300, Family: "error-then-sibling-deadline", TimeoutMs: 100,
+				Ticks: []time.Duration{60 * time.Millisecond, 60 * time.Millisecond, time.Millisecond}, Clients: []world.ClientSpec{cs, wake}}
+			sc.TickGate = func(w *world.World) bool {
+				switch w.Ticks {
+				case 0:
+					return w.Clients[0].NReplies >= 1 // the split request has been failed
+				case 1:
+					return len(w.DataCmds(AddrC)) >= 1 // the next request is at its node
+				default:
+					return len(w.Clients) > 1 && w.Clients[1].NReplies >= 1 // the loop has run once after the sibling's deadline
+				}
+			}
+			sc.Reply = func(w *world.World, bc *world.BConn, args [][]byte) ([]byte, int) {
+				switch {
+				case bc.Addr == AddrA && hasKey(args, ka):
+					return []byte(e1), 0
+				case bc.Addr == AddrB && hasKey(args, kb):
+					return world.DefaultReply(world.Lower(args[0]), args), -1
+				case bc.Addr == AddrC && hasKey(args, kc):
+					return []byte(e2), 3
+				}
+				return nil, 0
+			}
+			sc.Name = fmt.Sprintf("C11/%s-error-then-sibling-deadline/%s/d2", kind, strings.Fields(e2)[0])
+			sc.Check = func(w *world.World) []world.Violation {
+				vs := CheckStreams(w, StreamOpts{AnyError: func(ci, j int) bool { return ci == 0 && j == 0 }})
+				for i := range vs {
+					vs[i].Sig = "single-key-error-altered"
+				}
+				return vs
+			}
+			out = append(out, sc)
+		}
+	}
 	// the error reply shares a backend read with the reply of ANOTHER client whose connection goes away while its reply is
 	// delivered (QUIT pipelined behind its request / it hung up / it reset): the error must still reach its own client
 	for _, how := range []string{"quit", "fin", "rst"} {
